@@ -202,6 +202,10 @@ class Direct:
             self.open = False
             c.conn = None
             return guard(lambda: rc.ws_close(False, 1006, "dropped"))
+        if k == "wsfail":
+            if self.open or not c.svc.started:
+                return "skip"
+            return guard(lambda: rc.ws_close(False, 1006, "handshake failed"))
         if k == "failinitial":
             fired = False
             for d in c.svc.when_connected:
